@@ -7,6 +7,7 @@ import GtModel.Model.Assign
 import GtModel.Model.Bounded
 import GtModel.Model.Search
 import GtModel.Model.Heap
+import GtModel.Model.RoundTripIO
 import GtModel.Model.Render
 import GtModel.Proofs.RenderCheck
 import GtModel.Model.BuilderDriver
@@ -40,6 +41,7 @@ def table : List (String × Handler) := [
   ("assign", Assign.assignHandler),
   ("bounded", GtModel.Bounded.boundedHandler),
   ("heap", Heap.heapHandler),
+  ("roundtrip", RoundTrip.roundtripHandler),
   ("render", renderChecked),
   ("build", GtModel.Builder.buildHandler),
   ("dispatch", Dispatch.dispatchHandler),
